@@ -597,7 +597,7 @@ Ltac core_tac I := eapply Inv_core; [..|exact I]; reflexivity.
 
 Lemma poll_inv auto s ord : Inv s -> Inv (fst (fst (poll true auto s ord))).
 Proof.
-  intros I. unfold poll.
+  intros I. unfold poll. destruct (exited s); [exact I|].
   assert (P : hs_post (fst (if hs_empty s then (s, PPending) else hs_poll s ord))
                       (snd (if hs_empty s then (s, PPending) else hs_poll s ord))).
   { destruct (hs_empty s); [cbn; split; auto|apply hs_poll_spec; auto]. }
@@ -623,7 +623,7 @@ Proof.
     + cbn [fst]. core_tac I1.
     + cbn [fst]. core_tac I1.
   - destruct (cq (set_vals s1 q w (nvid s1))) as [|[p|p] t].
-    + cbn [fst]. core_tac I1.
+    + destruct (hdrop _); cbn [fst]; core_tac I1.
     + pose proof (on_open_inv (set_cq (set_vals s1 q w (nvid s1)) t) p) as X.
       destruct (on_open (set_cq (set_vals s1 q w (nvid s1)) t) p) as [s2 c]. cbn [fst] in *. apply X. core_tac I1.
     + cbn [fst]. apply on_close_inv. core_tac I1.
@@ -651,28 +651,49 @@ Qed.
 Lemma map_task_ok k t' l : task_ok t' -> Forall task_ok l -> Forall task_ok (map_task k (fun _ => t') l).
 Proof. intros H F. apply tasks_map_ok; auto. intros t Ht. destruct (t_id t =? k); auto. Qed.
 
-Lemma close_task_inv s t b : Inv s -> task_ok t -> Inv (close_task s t b).
+Lemma put_task_inv s t : Inv s -> task_ok t -> Inv (put_task s t).
 Proof.
-  intros I Ht. unfold close_task.
-  destruct b; (eapply Inv_tasks; [..|exact I]; try reflexivity; cbn; apply map_task_ok; auto; exact (i_tk s I)).
+  intros I Ht. unfold put_task. eapply Inv_tasks; [..|exact I]; try reflexivity. cbn. apply map_task_ok; auto. exact (i_tk s I).
 Qed.
 
-Lemma task_loop_inv fuel : forall s t, Inv s -> task_ok t -> Inv (fst (task_loop fuel s t)).
+Lemma with_ph_ok t ph : task_ok t -> task_ok (with_ph t ph).
+Proof. intros H. exact H. Qed.
+
+Lemma close_fin_inv s t n : Inv s -> task_ok t -> Inv (close_fin s t n).
 Proof.
-  induction fuel as [|f IH]; intros s t I Ht; cbn [task_loop fst]; auto.
-  destruct (t_shut t); [cbn [fst]; apply close_task_inv; auto|].
-  destruct (s_werr (t_out t)); [cbn [fst]; apply close_task_inv; auto|].
+  intros I Ht. unfold close_fin. pose proof (put_task_inv s (with_ph t PDone) I (with_ph_ok t PDone Ht)) as I1.
+  destruct n; core_tac I1.
+Qed.
+
+Lemma close_step_inv s t : Inv s -> task_ok t -> Inv (close_step s t).
+Proof.
+  intros I Ht. unfold close_step. destruct (t_ph t) as [|n|n|]; auto.
+  - destruct (s_gate (t_in t)); [apply put_task_inv; auto|].
+    destruct (s_gate (t_out t)); [apply put_task_inv; auto|apply close_fin_inv; auto].
+  - destruct (s_gate (t_out t)); [apply put_task_inv; auto|apply close_fin_inv; auto].
+Qed.
+
+Lemma close_task_inv s t b : Inv s -> task_ok t -> Inv (close_task s t b).
+Proof. intros I Ht. unfold close_task. apply close_step_inv; auto. Qed.
+
+Lemma task_loop_inv fuel : forall s t, Inv s -> task_ok t -> Inv (task_loop fuel s t).
+Proof.
+  induction fuel as [|f IH]; intros s t I Ht; cbn [task_loop]; auto.
+  destruct (t_shut t); [apply close_task_inv; auto|].
+  destruct (t_nosink t); [apply close_task_inv; auto|].
+  destruct (s_werr (t_out t)); [apply close_task_inv; auto|].
   destruct Ht as (Hi & Ho & Hf). cbn [t_in t_out].
-  assert (H1 : task_ok (mkT (t_id t) (t_peer t) true false (t_in t) (cn_write (t_out t) (t_q t)) [] (t_fwd t))).
+  assert (H1 : task_ok (mkT (t_id t) (t_peer t) PRun false (t_in t) (cn_write (t_out t) (t_q t)) [] (t_res t) false (t_fwd t))).
   { split; [|split]; cbn; auto. apply cn_write_tout; auto. }
+  destruct (hdrop s && negb (t_res t)); [apply close_task_inv; auto|].
   destruct (s_wire (t_in t)) as [|fr w] eqn:W.
-  - destruct (s_eof (t_in t)); cbn [fst].
-    + apply close_task_inv; auto. eapply Inv_tasks; [..|exact I]; try reflexivity. cbn. apply map_task_ok; auto. exact (i_tk s I).
-    + eapply Inv_tasks; [..|exact I]; try reflexivity. cbn. apply map_task_ok; auto. exact (i_tk s I).
-  - apply IH.
-    + eapply Inv_tasks; [..|exact I]; try reflexivity. cbn. apply map_task_ok; [|exact (i_tk s I)].
-      split; [|split]; cbn; [apply cn_read_tin; auto|apply cn_write_tout; auto|now rewrite Hf].
-    + split; [|split]; cbn; [apply cn_read_tin; auto|apply cn_write_tout; auto|now rewrite Hf].
+  - assert (H3 : task_ok (mkT (t_id t) (t_peer t) PRun false (t_in t) (cn_write (t_out t) (t_q t)) [] true false (t_fwd t))).
+    { split; [|split]; cbn; auto. apply cn_write_tout; auto. }
+    destruct (s_eof (t_in t)); [apply close_task_inv; auto|apply put_task_inv; auto].
+  - assert (H2 : task_ok (mkT (t_id t) (t_peer t) PRun false (cn_read (t_in t) fr w) (cn_write (t_out t) (t_q t)) [] false
+                            false (t_fwd t ++ [fr]))).
+    { split; [|split]; cbn; [apply cn_read_tin; auto|apply cn_write_tout; auto|now rewrite Hf]. }
+    apply IH; auto. eapply Inv_core; [..|apply (put_task_inv s _ I H2)]; reflexivity.
 Qed.
 
 Lemma find_task_ok k l t : Forall task_ok l -> find_task k l = Some t -> task_ok t.
@@ -681,25 +702,25 @@ Proof.
   destruct (t_id a =? k); [intros E; injection E as <-; auto|auto].
 Qed.
 
-Lemma task_poll_inv s k : Inv s -> Inv (fst (task_poll s k)).
+Lemma task_poll_inv s k : Inv s -> Inv (task_poll s k).
 Proof.
   intros I. unfold task_poll. destruct (find_task k (tasks s)) as [t|] eqn:F; auto.
-  destruct (t_alive t); auto. apply task_loop_inv; auto. apply (find_task_ok k (tasks s) t (i_tk s I) F).
+  pose proof (find_task_ok k (tasks s) t (i_tk s I) F) as Ht.
+  destruct (t_ph t); auto; [apply task_loop_inv; auto|apply close_step_inv; auto|apply close_step_inv; auto].
 Qed.
 
-Lemma tasks_poll_inv ks : forall s d, Inv s -> Inv (fst (tasks_poll s ks d)).
+Lemma tasks_poll_inv ks : forall s, Inv s -> Inv (tasks_poll s ks).
 Proof.
-  induction ks as [|k r IH]; intros s d I; cbn [tasks_poll fst]; auto.
-  pose proof (task_poll_inv s k I) as X. destruct (task_poll s k) as [s1 b]. apply IH. exact X.
+  induction ks as [|k r IH]; intros s I; cbn [tasks_poll]; auto. apply IH. apply task_poll_inv. exact I.
 Qed.
 
 (* ------------------------------------------------------------------ the handle and the user *)
 Lemma vanswer_core s id a : Inv s -> Inv (vanswer s id a).
 Proof. intros I. unfold vanswer. destruct (filter _ (vwait s)); core_tac I. Qed.
 
-Lemma h_poll_inv fuel : forall s, Inv s -> Inv (fst (h_poll fuel s)).
+Lemma h_poll_live_inv fuel : forall s, Inv s -> Inv (fst (h_poll_live fuel s)).
 Proof.
-  induction fuel as [|f IH]; intros s I; cbn [h_poll fst]; auto.
+  induction fuel as [|f IH]; intros s I; cbn [h_poll_live fst]; auto.
   destruct (evq s) as [|[p h v|p d h k|p k|p e] es].
   - destruct (nq s) as [|[[p k] fr] t]; auto.
     destruct (opt_eqb _ _); [cbn [fst]; core_tac I|apply IH; core_tac I].
@@ -709,6 +730,26 @@ Proof.
   - cbn [fst]. core_tac I.
   - destruct (match hsink (set_evq s es) p with Some a => _ | None => false end); [cbn [fst]; core_tac I|apply IH; core_tac I].
   - cbn [fst]. core_tac I.
+Qed.
+
+Lemma h_poll_inv fuel s : Inv s -> Inv (fst (h_poll fuel s)).
+Proof. intros I. unfold h_poll. destruct (hdrop s); auto. apply h_poll_live_inv; auto. Qed.
+
+Lemma fold_vanswer_inv {A} (f : st -> A -> st) (l : list A) :
+  (forall s a, Inv s -> Inv (f s a)) -> forall s, Inv s -> Inv (fold_left f l s).
+Proof. intros Hf. induction l as [|a t IH]; intros s I; cbn; auto. Qed.
+
+Lemma drop_handle_inv s : Inv s -> Inv (drop_handle s).
+Proof.
+  intros I. unfold drop_handle.
+  set (s1 := fold_left _ PEERS s).
+  assert (I1 : Inv s1).
+  { apply fold_vanswer_inv; auto. intros a p Ia. destruct (hval a p); auto. apply vanswer_core; auto. }
+  set (s2 := fold_left _ (evq s1) s1).
+  assert (I2 : Inv s2).
+  { apply fold_vanswer_inv; auto. intros a e Ia. destruct e; auto. apply vanswer_core; auto. }
+  eapply Inv_tasks; [..|exact I2]; try reflexivity. cbn.
+  apply tasks_map_ok; [|exact (i_tk s2 I2)]. intros t Ht. destruct (existsb _ _); auto.
 Qed.
 
 (* ------------------------------------------------------------------ the environment touches a carrier *)
@@ -778,7 +819,7 @@ Qed.
 
 Lemma step_inv auto s o : Inv s -> Inv (fst (fst (step true auto s o))).
 Proof.
-  intros I. destruct o as [p|p|p|p|p|id x|ord|p|p|p a| | |p t]; cbn [step].
+  intros I. destruct o as [p|p|p|p|p|id x|ord|p|p|p a| | |p t|]; cbn [step].
   - destruct (hc s p); cbn [fst]; auto. eapply Inv_core; [..|apply (sq_push_inv s (EvEst p) I Logic.I)]; reflexivity.
   - destruct (hc s p); cbn [fst]; auto. eapply Inv_core; [..|apply (sq_push_inv s (EvClosed p) I Logic.I)]; reflexivity.
   - destruct (hc s p); cbn [fst]; auto.
@@ -789,17 +830,18 @@ Proof.
     eapply Inv_core; [..|apply (sq_push_inv s (EvFail x) I Logic.I)]; reflexivity.
   - cbn [fst]. apply env_inv; auto.
   - pose proof (poll_inv auto s ord I) as X. destruct (poll true auto s ord) as [[s1 r] c]. exact X.
-  - destruct (hsink s p); cbn [fst]; auto. core_tac I.
-  - destruct (hsink s p); cbn [fst]; auto. core_tac I.
-  - destruct (hval s p) as [v|]; cbn [fst]; auto. apply vanswer_core. core_tac I.
-  - pose proof (tasks_poll_inv (map t_id (tasks s)) s 0 I) as X. destruct (tasks_poll s (map t_id (tasks s)) 0) as [s1 d]. exact X.
+  - destruct (hdrop s); cbn [fst]; auto. destruct (hsink s p); cbn [fst]; auto. core_tac I.
+  - destruct (hdrop s); cbn [fst]; auto. destruct (hsink s p); cbn [fst]; auto. core_tac I.
+  - destruct (hdrop s); cbn [fst]; auto. destruct (hval s p) as [v|]; cbn [fst]; auto. apply vanswer_core. core_tac I.
+  - cbn [fst]. apply tasks_poll_inv. exact I.
   - pose proof (h_poll_inv (S (length (evq s) + length (nq s))) s I) as X.
     destruct (h_poll (S (length (evq s) + length (nq s))) s) as [s1 e]. exact X.
-  - destruct (hsink s p) as [k|]; cbn [fst]; auto.
+  - destruct (hdrop s); cbn [fst]; auto. destruct (hsink s p) as [k|]; cbn [fst]; auto.
     destruct (find_task k (tasks s)) as [tk|]; cbn [fst]; auto.
     destruct (t_alive tk); cbn [fst]; auto.
     eapply Inv_tasks; [..|exact I]; try reflexivity. cbn. apply tasks_map_ok; [|exact (i_tk s I)].
     intros t0 H. destruct (t_id t0 =? k); auto.
+  - destruct (hdrop s); cbn [fst]; auto. apply drop_handle_inv. exact I.
 Qed.
 
 Lemma run_inv auto l : forall s, Inv s -> Inv (fst (run true auto s l)).
@@ -892,6 +934,77 @@ Proof.
     exists e. split; auto. rewrite RF in L. destruct L as ((L & _) & _). destruct e as [g y]. destruct g; cbn in L; try contradiction.
     + right. split; auto. apply L.
     + left. apply L.
+Qed.
+
+(* ------------------------------------------------------------------ the end of a Connection *)
+Lemma find_map_task k l t t' : find_task k l = Some t -> t_id t' = k -> find_task k (map_task k (fun _ => t') l) = Some t'.
+Proof.
+  intros F E. induction l as [|a l IH]; cbn in *; [discriminate|].
+  destruct (t_id a =? k) eqn:Ea.
+  - rewrite E, N.eqb_refl. reflexivity.
+  - rewrite Ea. auto.
+Qed.
+
+Lemma find_task_id k l t : find_task k l = Some t -> t_id t = k.
+Proof.
+  induction l as [|a l IH]; cbn; [discriminate|]. destruct (t_id a =? k) eqn:Ea; auto.
+  intros E; injection E as <-. now apply N.eqb_eq.
+Qed.
+
+(* the state of task k after close_step: same substreams, nothing forwarded, not running *)
+Definition same_io (t t' : task) : Prop :=
+  t_in t' = t_in t /\ t_out t' = t_out t /\ t_fwd t' = t_fwd t /\ t_running t' = false.
+
+Lemma close_step_task s k t : find_task k (tasks s) = Some t -> t_running t = false ->
+  exists t', find_task k (tasks (close_step s t)) = Some t' /\ same_io t t'.
+Proof.
+  intros F R. pose proof (find_task_id _ _ _ F) as Ek. unfold close_step.
+  destruct (t_ph t) as [|n|n|] eqn:P; try (unfold t_running in R; rewrite P in R; discriminate).
+  - destruct (s_gate (t_in t)).
+    + exists t. split; [cbn; rewrite Ek; apply (find_map_task k _ t t F Ek)|repeat split; auto].
+    + destruct (s_gate (t_out t)).
+      * eexists. split; [cbn; rewrite Ek; apply (find_map_task k _ t _ F); exact Ek|repeat split; auto].
+      * eexists. unfold close_fin. split.
+        { destruct n; cbn; rewrite Ek; apply (find_map_task k _ t _ F); exact Ek. }
+        repeat split; auto.
+  - destruct (s_gate (t_out t)).
+    + exists t. split; [cbn; rewrite Ek; apply (find_map_task k _ t t F Ek)|repeat split; auto].
+    + eexists. unfold close_fin. split.
+      { destruct n; cbn; rewrite Ek; apply (find_map_task k _ t _ F); exact Ek. }
+      repeat split; auto.
+  - exists t. split; auto. repeat split; auto.
+Qed.
+
+(* close_connection spread over several polls: while a Connection waits for its substreams to close it neither
+   reads nor writes nor hands anything to the handle (what the sink still accepts meanwhile is never sent) *)
+Lemma closing_is_silent s k t : find_task k (tasks s) = Some t -> t_alive t = true -> t_running t = false ->
+  exists t', find_task k (tasks (task_poll s k)) = Some t' /\ same_io t t'.
+Proof.
+  intros F A R. unfold task_poll. rewrite F.
+  destruct (t_ph t) eqn:P; try (unfold t_running in R; rewrite P in R; discriminate);
+    try (apply close_step_task; auto; unfold t_running; rewrite P; reflexivity).
+  unfold t_alive in A. rewrite P in A. discriminate.
+Qed.
+
+(* the NotificationHandle is gone and the Connection holds no slot of its channel: the next poll ends the stream
+   (poll_reserve fails) without reading the inbound substream *)
+Lemma handle_gone_closes s k t : find_task k (tasks s) = Some t -> t_ph t = PRun ->
+  hdrop s = true -> t_res t = false ->
+  exists t', find_task k (tasks (task_poll s k)) = Some t' /\ t_running t' = false /\ t_in t' = t_in t /\ t_fwd t' = t_fwd t.
+Proof.
+  intros F P D R. pose proof (find_task_id _ _ _ F) as Ek. unfold task_poll. rewrite F, P. cbn [task_loop].
+  set (tw := mkT (t_id t) (t_peer t) PRun false (t_in t) (cn_write (t_out t) (t_q t)) [] (t_res t) (t_nosink t) (t_fwd t)).
+  assert (G : forall tc n, t_id tc = k -> t_in tc = t_in t -> t_fwd tc = t_fwd t ->
+              exists t', find_task k (tasks (close_task s tc n)) = Some t' /\ t_running t' = false /\ t_in t' = t_in t /\ t_fwd t' = t_fwd t).
+  { intros tc n Eid Ein Efw. unfold close_task, close_step. cbn [with_ph t_ph t_in t_out].
+    destruct (s_gate (t_in tc)); [|destruct (s_gate (t_out tc))].
+    - eexists. split; [cbn; rewrite Eid; apply (find_map_task k _ t _ F); exact Eid|cbn; auto].
+    - eexists. split; [cbn; rewrite Eid; apply (find_map_task k _ t _ F); exact Eid|cbn; auto].
+    - eexists. unfold close_fin. split; [destruct n; cbn; rewrite Eid; apply (find_map_task k _ t _ F); exact Eid|cbn; auto]. }
+  destruct (t_shut t); [apply G; auto|].
+  destruct (t_nosink t); [apply G; auto|].
+  destruct (s_werr (t_out t)); [apply G; auto|].
+  rewrite D, R. cbn [andb negb]. apply G; auto.
 Qed.
 
 (* ------------------------------------------------------------------ the original code (fx = false) *)
